@@ -1,12 +1,15 @@
 #!/usr/bin/env python3
 """Regenerates /verif/MANIFEST.json from the table below (single source of truth for the interface)."""
 import json, os
-ROOT = "/verif"
+ROOT = os.path.dirname(os.path.dirname(os.path.abspath(__file__)))
 props = [json.loads(l) for l in open(os.path.join(ROOT, "properties.jsonl"))]
 CHECKS = {
  "C17": dict(technique="TLA+ spec BitSeq (register machine over lists of booleans); TLC exhaustive for MaxLen=4; TLC-enumerated boundary transitions at MaxLen=64 replayed into yui::bitseq::BitSeq; recorded random histories validated by Trace_BitSeq",
              text="TLC checks the list-of-booleans machine exhaustively for MaxLen=4 (all register states, actions, arguments, order axioms); every TLC transition of the length-0/32/64 boundary family becomes one implementation test, and seeded random histories of the real type are validated event by event against the spec (register file, result class, returned value).",
              note="Trusted: TLC, the harness' projection of a BitSeq through the public (as_u64,len) pair. Out-of-range indices are not issued.", design="§3 C17"),
+ "C14": dict(technique="TLA+ spec Scalars (register machine over exact rings, BigNum limb arithmetic in TLA+); TLC exhaustive on small complete domains with expected values replayed on all 16 scalar types in six operator forms; recorded histories validated by Trace_Scalars",
+             text="TLC model-checks the bignum and ring libraries against the ring axioms, enumerates every operand pair/operation of the small domains with the canonical expected value (replayed on every scalar type and operator form), and validates seeded histories of the real types (values to 10^300+, machine ints near their limits) event by event: every result must be the exact ring element in canonical form and every comparison the mathematical answer.",
+             note="Trusted: TLC, BigNum.tla/Rings.tla (model-checked), decimal->limb chunking in the harness, Bezout witnesses re-multiplied by TLC. Machine-integer ops only inside the representable envelope.", design="§3 C14"),
 }
 PENDING = "not yet bound to the specification in this round (see DESIGN.md section 3 for the planned spec and binding)"
 m = {
